@@ -13,7 +13,13 @@ Ltac sproj := cbn [fst snd upg f_tls_disabled f_tls_mandatory f_legacy_ssl f_tls
 Ltac sproj_in H := cbn [fst snd upg f_tls_disabled f_tls_mandatory f_legacy_ssl f_tls_trust f_legacy_auth f_sm_disable f_comp_allowed f_comp_dont_reset jid_set jid_node jid_res pass_set cert_set is_raw typ user_handler user_timed tlsnew_ok cb_avail tls_verdicts next_cands cands cur_ep st stamp err stream_error secured tls_present tls_failed tls_support sasl bind_required session_required comp_supported comp_active sm_alloc sm_support sm_enabled sm_can_resume sm_resume sm_dont_request sm_has_previd sm_has_id sm_parked sm_r_sent sm_bind_saved bound_jid stream_id neg_done reset_parser oh ps handlers idhandlers timed sendq rxq smq sm_sent scram_serial crashed gh set_f_tls_disabled set_f_tls_mandatory set_f_legacy_ssl set_f_tls_trust set_f_legacy_auth set_f_sm_disable set_f_comp_allowed set_f_comp_dont_reset set_jid_set set_jid_node set_jid_res set_pass_set set_cert_set set_is_raw set_typ set_user_handler set_user_timed set_tlsnew_ok set_cb_avail set_tls_verdicts set_next_cands set_cands set_cur_ep set_st set_stamp set_err set_stream_error set_secured set_tls_present set_tls_failed set_tls_support set_sasl set_bind_required set_session_required set_comp_supported set_comp_active set_sm_alloc set_sm_support set_sm_enabled set_sm_can_resume set_sm_resume set_sm_dont_request set_sm_has_previd set_sm_has_id set_sm_parked set_sm_r_sent set_sm_bind_saved set_bound_jid set_stream_id set_neg_done set_reset_parser set_oh set_ps set_handlers set_idhandlers set_timed set_sendq set_rxq set_smq set_sm_sent set_scram_serial set_crashed set_gh g_offer_tls g_offered g_offer_zlib g_offer_bind g_offer_session g_offer_sm g_feat_seen g_strong g_tls_up g_auth_w g_auth_ok g_bind_w g_bound g_resume_w g_resumed g_legacy_w g_legacy_ok g_hs_w g_hs_ok g_hdr_w g_raw_open g_attempt g_connects g_disconnects g_rawc g_conn_unjust g_serr g_se_bad set_g_offer_tls set_g_offered set_g_offer_zlib set_g_offer_bind set_g_offer_session set_g_offer_sm set_g_feat_seen set_g_strong set_g_tls_up set_g_auth_w set_g_auth_ok set_g_bind_w set_g_bound set_g_resume_w set_g_resumed set_g_legacy_w set_g_legacy_ok set_g_hs_w set_g_hs_ok set_g_hdr_w set_g_raw_open set_g_attempt set_g_connects set_g_disconnects set_g_rawc set_g_conn_unjust set_g_serr set_g_se_bad] in H.
 Ltac sproj_all := cbn [fst snd upg f_tls_disabled f_tls_mandatory f_legacy_ssl f_tls_trust f_legacy_auth f_sm_disable f_comp_allowed f_comp_dont_reset jid_set jid_node jid_res pass_set cert_set is_raw typ user_handler user_timed tlsnew_ok cb_avail tls_verdicts next_cands cands cur_ep st stamp err stream_error secured tls_present tls_failed tls_support sasl bind_required session_required comp_supported comp_active sm_alloc sm_support sm_enabled sm_can_resume sm_resume sm_dont_request sm_has_previd sm_has_id sm_parked sm_r_sent sm_bind_saved bound_jid stream_id neg_done reset_parser oh ps handlers idhandlers timed sendq rxq smq sm_sent scram_serial crashed gh set_f_tls_disabled set_f_tls_mandatory set_f_legacy_ssl set_f_tls_trust set_f_legacy_auth set_f_sm_disable set_f_comp_allowed set_f_comp_dont_reset set_jid_set set_jid_node set_jid_res set_pass_set set_cert_set set_is_raw set_typ set_user_handler set_user_timed set_tlsnew_ok set_cb_avail set_tls_verdicts set_next_cands set_cands set_cur_ep set_st set_stamp set_err set_stream_error set_secured set_tls_present set_tls_failed set_tls_support set_sasl set_bind_required set_session_required set_comp_supported set_comp_active set_sm_alloc set_sm_support set_sm_enabled set_sm_can_resume set_sm_resume set_sm_dont_request set_sm_has_previd set_sm_has_id set_sm_parked set_sm_r_sent set_sm_bind_saved set_bound_jid set_stream_id set_neg_done set_reset_parser set_oh set_ps set_handlers set_idhandlers set_timed set_sendq set_rxq set_smq set_sm_sent set_scram_serial set_crashed set_gh g_offer_tls g_offered g_offer_zlib g_offer_bind g_offer_session g_offer_sm g_feat_seen g_strong g_tls_up g_auth_w g_auth_ok g_bind_w g_bound g_resume_w g_resumed g_legacy_w g_legacy_ok g_hs_w g_hs_ok g_hdr_w g_raw_open g_attempt g_connects g_disconnects g_rawc g_conn_unjust g_serr g_se_bad set_g_offer_tls set_g_offered set_g_offer_zlib set_g_offer_bind set_g_offer_session set_g_offer_sm set_g_feat_seen set_g_strong set_g_tls_up set_g_auth_w set_g_auth_ok set_g_bind_w set_g_bound set_g_resume_w set_g_resumed set_g_legacy_w set_g_legacy_ok set_g_hs_w set_g_hs_ok set_g_hdr_w set_g_raw_open set_g_attempt set_g_connects set_g_disconnects set_g_rawc set_g_conn_unjust set_g_serr set_g_se_bad] in *.
 
-Ltac split_pair c := rewrite (surjective_pairing c); cbv beta iota; cbn [fst snd].
+Ltac split_pair c :=
+  let x := fresh "x" in let y := fresh "y" in let E := fresh "E" in
+  destruct c as [x y] eqn:E;
+  let Hx := fresh in let Hy := fresh in
+  assert (Hx : x = fst c) by (rewrite E; reflexivity);
+  assert (Hy : y = snd c) by (rewrite E; reflexivity);
+  clear E; subst x y.
 
 (* one scrutinee at a time, innermost first; pair-valued scrutinees are not destructed but
    replaced by (fst c, snd c) so that lemmas about fst (f s) / snd (f s) stay applicable *)
@@ -36,7 +42,35 @@ Ltac case_step :=
   | match goal with
     | |- context [match ?c with _ => _ end] => case_on c
     end ].
-Ltac cases := cbv zeta; repeat case_step; cbn [fst snd].
+(* auth is a fixpoint on its fuel: a literal fuel lets the kernel unfold it when re-checking
+   conversions at Qed (exponential); abstract the fuel first *)
+Ltac gen_fuel := repeat match goal with |- context [auth (S ?k)] => generalize (S k); intro end.
+Ltac cases := gen_fuel; cbv zeta; repeat case_step.
+
+(* Results of pair-valued model functions are named (with the defining equation put back in the
+   goal) before the function is unfolded: reducing fst/snd of big terms by conversion is what the
+   kernel is slow at. *)
+Ltac name_result :=
+  match goal with
+  | |- context [fst (fst ?c)] => let E := fresh "E" in destruct c as [[? ?] ?] eqn:E; cbn [fst snd]; revert E
+  | |- context [snd (fst ?c)] => let E := fresh "E" in destruct c as [[? ?] ?] eqn:E; cbn [fst snd]; revert E
+  | |- context [fst ?c] => let E := fresh "E" in destruct c as [? ?] eqn:E; cbn [fst snd]; revert E
+  | |- context [snd ?c] => let E := fresh "E" in destruct c as [? ?] eqn:E; cbn [fst snd]; revert E
+  end.
+Ltac inj_pairs :=
+  repeat match goal with
+         | H : (_, _) = (_, _) |- _ => apply pair_equal_spec in H; destruct H
+         end; subst.
+Ltac unname_results :=
+  repeat match goal with
+         | H : ?c = (?a, ?b) |- _ =>
+             is_var a; is_var b;
+             let Ha := fresh in let Hb := fresh in
+             assert (Ha : a = fst c) by (rewrite H; reflexivity);
+             assert (Hb : b = snd c) by (rewrite H; reflexivity);
+             clear H; subst a b
+         end.
+Ltac leaf := intros; inj_pairs; unname_results.
 
 Lemma fold_left_inv {A B} (P : A -> Prop) (f : A -> B -> A) :
   (forall a b, P a -> P (f a b)) -> forall l a, P a -> P (fold_left f l a).
@@ -261,3 +295,211 @@ Proof. intros v s0 s H; apply (Fr_trans _ _ _ H); destruct s; Fr_prim. Qed.
 Lemma Fr_set_crashed : forall v s0 s, Fr s0 s -> Fr s0 (set_crashed v s).
 Proof. intros v s0 s H; apply (Fr_trans _ _ _ H); destruct s; Fr_prim. Qed.
 #[export] Hint Resolve Fr_set_crashed : frdb.
+
+(* ------------------------------------------------------------------ non-benign primitives *)
+Lemma Fr_set_sendq_app : forall l s0 s, Fr s0 s -> Fr s0 (set_sendq (sendq s ++ l) s).
+Proof. intros l s0 s H; apply (Fr_trans _ _ _ H); destruct s; Fr_prim. eexists; reflexivity. Qed.
+Lemma Fr_set_st_disc : forall s0 s, Fr s0 s -> Fr s0 (set_st Disconnected s).
+Proof. intros s0 s H; apply (Fr_trans _ _ _ H); destruct s; Fr_prim. Qed.
+Lemma Fr_set_reset_true : forall s0 s, Fr s0 s -> Fr s0 (set_reset_parser true s).
+Proof. intros s0 s H; apply (Fr_trans _ _ _ H); destruct s; Fr_prim. Qed.
+Lemma Fr_set_secured_true : forall s0 s, Fr s0 s -> Fr s0 (set_secured true s).
+Proof. intros s0 s H; apply (Fr_trans _ _ _ H); destruct s; Fr_prim. Qed.
+Lemma Fr_set_gh : forall g s0 s, GFr (gh s) g -> Fr s0 s -> Fr s0 (set_gh g s).
+Proof. intros g s0 s Hg H; apply (Fr_trans _ _ _ H); destruct s; cbn in Hg; Fr_prim. Qed.
+Lemma Fr_upg : forall f s0 s, GFr (gh s) (f (gh s)) -> Fr s0 s -> Fr s0 (upg f s).
+Proof. intros; unfold upg; apply Fr_set_gh; auto. Qed.
+#[export] Hint Resolve Fr_set_sendq_app Fr_set_st_disc Fr_set_reset_true Fr_set_secured_true Fr_upg : frdb.
+
+Ltac fr := intros; cases; eauto 30 with frdb.
+Ltac frR := intros; name_result; cases; leaf; eauto 30 with frdb.
+
+Lemma Fr_set_sendq_app' : forall l s0 s s1, sendq s1 = sendq s -> Fr s0 s -> Fr s0 (set_sendq (sendq s1 ++ l) s).
+Proof. intros l s0 s s1 E H; rewrite E; apply Fr_set_sendq_app; auto. Qed.
+Lemma Fr_q_append : forall w u o s0 s, Fr s0 s -> Fr s0 (q_append w u o s).
+Proof.
+  intros w u o s0 s H. unfold q_append. cbv zeta.
+  match goal with |- context [if ?c then _ else _] => destruct c end.
+  - eapply Fr_set_sendq_app'; [reflexivity|]. eauto with frdb.
+  - eauto with frdb.
+Qed.
+#[export] Hint Resolve Fr_q_append : frdb.
+Lemma Fr_send_gated : forall w u o s0 s, Fr s0 s -> Fr s0 (send_gated w u o s).
+Proof. unfold send_gated; fr. Qed.
+Lemma Fr_send_raw_m : forall w u o s0 s, Fr s0 s -> Fr s0 (send_raw_m w u o s).
+Proof. unfold send_raw_m; fr. Qed.
+#[export] Hint Resolve Fr_send_gated Fr_send_raw_m : frdb.
+Lemma Fr_timed_add : forall k n s0 s, Fr s0 s -> Fr s0 (timed_add k n s).
+Proof. unfold timed_add; fr. Qed.
+Lemma Fr_timed_del : forall k s0 s, Fr s0 s -> Fr s0 (timed_del k s).
+Proof. unfold timed_del; fr. Qed.
+Lemma Fr_timed_reset_all : forall n s0 s, Fr s0 s -> Fr s0 (timed_reset_all n s).
+Proof. unfold timed_reset_all; fr. Qed.
+Lemma Fr_timed_set_stamp : forall k n s0 s, Fr s0 s -> Fr s0 (timed_set_stamp k n s).
+Proof. unfold timed_set_stamp; fr. Qed.
+Lemma Fr_h_add : forall k s0 s, Fr s0 s -> Fr s0 (h_add k s).
+Proof. unfold h_add; fr. Qed.
+Lemma Fr_h_del : forall k s0 s, Fr s0 s -> Fr s0 (h_del k s).
+Proof. unfold h_del; fr. Qed.
+Lemma Fr_id_add : forall k s0 s, Fr s0 s -> Fr s0 (id_add k s).
+Proof. unfold id_add; fr. Qed.
+Lemma Fr_id_del : forall k s0 s, Fr s0 s -> Fr s0 (id_del k s).
+Proof. unfold id_del; fr. Qed.
+#[export] Hint Resolve Fr_timed_add Fr_timed_del Fr_timed_reset_all Fr_timed_set_stamp Fr_h_add Fr_h_del Fr_id_add Fr_id_del : frdb.
+Lemma Fr_reset_sm_for_reconnect : forall s0 s, Fr s0 s -> Fr s0 (reset_sm_for_reconnect s).
+Proof. unfold reset_sm_for_reconnect; fr. Qed.
+Lemma Fr_sm_queue_cleanup : forall h s0 s, Fr s0 s -> Fr s0 (sm_queue_cleanup h s).
+Proof. unfold sm_queue_cleanup; fr. Qed.
+#[export] Hint Resolve Fr_reset_sm_for_reconnect Fr_sm_queue_cleanup : frdb.
+Lemma Fr_sm_queue_resend : forall s0 s, Fr s0 s -> Fr s0 (sm_queue_resend s).
+Proof.
+  intros; unfold sm_queue_resend. apply fold_left_inv; eauto with frdb.
+Qed.
+#[export] Hint Resolve Fr_sm_queue_resend : frdb.
+Lemma Fr_conn_disconnect : forall s0 s, Fr s0 s -> Fr s0 (fst (conn_disconnect s)).
+Proof. unfold conn_disconnect, ret; frR. Qed.
+#[export] Hint Resolve Fr_conn_disconnect : frdb.
+Lemma Fr_xmpp_disconnect : forall n s0 s, Fr s0 s -> Fr s0 (xmpp_disconnect n s).
+Proof. unfold xmpp_disconnect; fr. Qed.
+Lemma Fr_prepare_reset : forall h s0 s, Fr s0 s -> Fr s0 (prepare_reset h s).
+Proof. unfold prepare_reset; fr. Qed.
+Lemma Fr_conn_open_stream : forall s0 s, Fr s0 s -> Fr s0 (conn_open_stream s).
+Proof. unfold conn_open_stream; fr. Qed.
+#[export] Hint Resolve Fr_xmpp_disconnect Fr_prepare_reset Fr_conn_open_stream : frdb.
+Lemma Fr_conn_tls_start : forall s0 s, Fr s0 s -> Fr s0 (fst (fst (conn_tls_start s))).
+Proof. unfold conn_tls_start; frR. Qed.
+Lemma Fr_stream_negotiation_success : forall s0 s, Fr s0 s -> Fr s0 (fst (stream_negotiation_success s)).
+Proof. unfold stream_negotiation_success, ret; frR. Qed.
+#[export] Hint Resolve Fr_conn_tls_start Fr_stream_negotiation_success : frdb.
+Lemma Fr_do_bind : forall n b s0 s, Fr s0 s -> Fr s0 (fst (do_bind n b s)).
+Proof. unfold do_bind, ret; frR. Qed.
+Lemma Fr_session_start : forall n s0 s, Fr s0 s -> Fr s0 (session_start n s).
+Proof. unfold session_start; fr. Qed.
+Lemma Fr_sm_enable : forall s0 s, Fr s0 s -> Fr s0 (sm_enable s).
+Proof. unfold sm_enable; fr. Qed.
+Lemma Fr_auth_legacy : forall n s0 s, Fr s0 s -> Fr s0 (auth_legacy n s).
+Proof. unfold auth_legacy; fr. Qed.
+#[export] Hint Resolve Fr_do_bind Fr_session_start Fr_sm_enable Fr_auth_legacy : frdb.
+Lemma Fr_auth : forall fuel n s0 s, Fr s0 s -> Fr s0 (fst (auth fuel n s)).
+Proof. induction fuel; intros; name_result; cbn [auth]; unfold ret; cases; leaf; eauto 30 with frdb. Qed.
+#[export] Hint Resolve Fr_auth : frdb.
+Lemma Fr_sasl_result : forall n e s0 s, Fr s0 s -> Fr s0 (fst (sasl_result n e s)).
+Proof. unfold sasl_result, ret; frR. Qed.
+Lemma Fr_features_sasl : forall n e s0 s, Fr s0 s -> Fr s0 (fst (features_sasl n e s)).
+Proof. unfold features_sasl, ret; frR. Qed.
+#[export] Hint Resolve Fr_sasl_result Fr_features_sasl : frdb.
+Lemma Fr_call_handler : forall k n e s0 s, Fr s0 s -> Fr s0 (fst (fst (call_handler k n e s))).
+Proof. intros k; destruct k; intros; name_result; unfold call_handler, ret; cases; leaf; eauto 30 with frdb. Qed.
+Lemma Fr_call_id_handler : forall k n e s0 s, Fr s0 s -> Fr s0 (fst (call_id_handler k n e s)).
+Proof. intros k; destruct k; intros; name_result; unfold call_id_handler, ret; cases; leaf; eauto 30 with frdb. Qed.
+#[export] Hint Resolve Fr_call_handler Fr_call_id_handler : frdb.
+Lemma mem_mech_app : forall m l l', mem_mech m (l ++ l') = mem_mech m l || mem_mech m l'.
+Proof. intros; unfold mem_mech; apply existsb_app. Qed.
+
+(* monotone ghost setters *)
+Lemma GFr_set_true_auth_ok : forall g0 g, GFr g0 g -> GFr g0 (set_g_auth_ok true g).
+Proof. intros g0 g H; apply (GFr_trans _ _ _ H); destruct g; GFr_prim. Qed.
+Lemma GFr_set_true_bound : forall g0 g, GFr g0 g -> GFr g0 (set_g_bound true g).
+Proof. intros g0 g H; apply (GFr_trans _ _ _ H); destruct g; GFr_prim. Qed.
+Lemma GFr_set_true_legacy_ok : forall g0 g, GFr g0 g -> GFr g0 (set_g_legacy_ok true g).
+Proof. intros g0 g H; apply (GFr_trans _ _ _ H); destruct g; GFr_prim. Qed.
+Lemma GFr_set_true_resumed : forall g0 g, GFr g0 g -> GFr g0 (set_g_resumed true g).
+Proof. intros g0 g H; apply (GFr_trans _ _ _ H); destruct g; GFr_prim. Qed.
+Lemma GFr_set_true_hs_ok : forall g0 g, GFr g0 g -> GFr g0 (set_g_hs_ok true g).
+Proof. intros g0 g H; apply (GFr_trans _ _ _ H); destruct g; GFr_prim. Qed.
+Lemma GFr_set_or_raw_open : forall b g0 g, GFr g0 g -> GFr g0 (set_g_raw_open (b || g_raw_open g) g).
+Proof. intros b g0 g H; apply (GFr_trans _ _ _ H); destruct g; GFr_prim. subst; apply orb_true_r. Qed.
+#[export] Hint Resolve GFr_set_true_auth_ok GFr_set_true_bound GFr_set_true_legacy_ok GFr_set_true_resumed
+  GFr_set_true_hs_ok GFr_set_or_raw_open : frdb.
+Lemma GFr_offers : forall g a l b c d f,
+  GFr g (set_g_offer_tls (g_offer_tls g || a) (set_g_offered (g_offered g ++ l)
+        (set_g_offer_zlib (g_offer_zlib g || b) (set_g_offer_bind (g_offer_bind g || c)
+        (set_g_offer_session (g_offer_session g || d) (set_g_offer_sm (g_offer_sm g || f) g)))))).
+Proof.
+  intros; destruct g; constructor; cbn; intros; subst; auto.
+  fold (mem_mech m (g_offered ++ l)). rewrite mem_mech_app. unfold mem_mech. rewrite H. reflexivity.
+Qed.
+
+Ltac gstage :=
+  match goal with
+  | |- GFr ?g0 (if ?c then _ else ?B) =>
+      let H := fresh in
+      assert (H : GFr g0 B); [ | revert H; generalize B; intros; destruct c; eauto with frdb ]
+  end.
+
+Lemma GFr_note_rx : forall e s, GFr (gh s) (gh (note_rx e s)).
+Proof.
+  intros e s. unfold note_rx. cbv zeta. sproj. generalize (gh s). intros g.
+  do 3 gstage.
+  match goal with |- GFr ?g0 ?T => match T with context [set_g_bound true ?B] =>
+    let H := fresh in assert (H : GFr g0 B);
+    [ | revert H; generalize B; intros; destruct (e_id e); destruct (e_type e); cases; eauto with frdb ] end end.
+  gstage.
+  cases; eauto using GFr_offers, GFr_trans with frdb.
+Qed.
+Lemma Fr_note_rx : forall e s0 s, Fr s0 s -> Fr s0 (note_rx e s).
+Proof.
+  intros e s0 s H. pose proof (GFr_note_rx e s) as G.
+  unfold note_rx in *. cbv zeta in *. sproj_in G. apply Fr_set_gh; assumption.
+Qed.
+#[export] Hint Resolve Fr_note_rx : frdb.
+
+Lemma Fr_fold_visit : forall (f : R -> hkind -> R) l,
+  (forall s0 r k, Fr s0 (fst r) -> Fr s0 (fst (f r k))) ->
+  forall s0 r, Fr s0 (fst r) -> Fr s0 (fst (fold_left f l r)).
+Proof. intros f l Hf s0. apply (fold_left_inv (fun r => Fr s0 (fst r))). intros; auto. Qed.
+
+Lemma Fr_visit : forall n e s0 r k, Fr s0 (fst r) -> Fr s0 (fst (visit n e r k)).
+Proof.
+  intros n e s0 [s o] k H. cbn [fst] in H. name_result. unfold visit. cases; leaf; eauto 30 with frdb.
+Qed.
+Lemma Fr_sm_handle : forall e s0 s, Fr s0 s -> Fr s0 (sm_handle e s).
+Proof. unfold sm_handle; fr. Qed.
+#[export] Hint Resolve Fr_visit Fr_sm_handle : frdb.
+
+Lemma Fr_fst_pair : forall s0 (a : state) (b : emit), Fr s0 a -> Fr s0 (fst (a, b)).
+Proof. intros; assumption. Qed.
+Lemma Fr_fold_visit_fst : forall n e l s0 r, Fr s0 (fst r) -> Fr s0 (fst (fold_left (visit n e) l r)).
+Proof. intros; apply Fr_fold_visit; auto using Fr_visit. Qed.
+#[export] Hint Resolve Fr_fst_pair Fr_fold_visit_fst : frdb.
+Lemma Fr_dispatch : forall n e s0 s, Fr s0 s -> Fr s0 (fst (dispatch n e s)).
+Proof.
+  intros. name_result. unfold dispatch, ret. cases; leaf; eauto 30 with frdb.
+Qed.
+#[export] Hint Resolve Fr_dispatch : frdb.
+Lemma Fr_open_handler : forall n s0 s, Fr s0 s -> Fr s0 (fst (open_handler n s)).
+Proof. unfold open_handler, ret; frR. Qed.
+#[export] Hint Resolve Fr_open_handler : frdb.
+Lemma GFr_stream_start_upd : forall b g,
+  GFr g ((fun g : ghost => set_g_raw_open (b || g_raw_open g) (set_g_feat_seen false g)) g).
+Proof. intros b g; destruct g; GFr_prim. subst; apply orb_true_r. Qed.
+#[export] Hint Resolve GFr_stream_start_upd : frdb.
+Lemma Fr_stream_start : forall n a b s0 s, Fr s0 s -> Fr s0 (fst (stream_start n a b s)).
+Proof. unfold stream_start; frR. Qed.
+Lemma Fr_stream_end : forall s0 s, Fr s0 s -> Fr s0 (fst (stream_end s)).
+Proof. unfold stream_end; frR. Qed.
+#[export] Hint Resolve Fr_stream_start Fr_stream_end : frdb.
+Lemma Fr_feed_item : forall n it s0 s, Fr s0 s -> Fr s0 (fst (fst (feed_item n it s))).
+Proof. unfold feed_item; frR. Qed.
+#[export] Hint Resolve Fr_feed_item : frdb.
+Lemma Fr_feed_items : forall n its s0 s, Fr s0 s -> Fr s0 (fst (fst (feed_items n its s))).
+Proof. induction its; intros; name_result; cbn [feed_items]; cases; leaf; eauto 30 with frdb. Qed.
+#[export] Hint Resolve Fr_feed_items : frdb.
+Lemma Fr_call_timed : forall k n s0 s, Fr s0 s -> Fr s0 (fst (fst (call_timed k n s))).
+Proof. intros k; destruct k; intros; name_result; unfold call_timed; cases; leaf; eauto 30 with frdb. Qed.
+#[export] Hint Resolve Fr_call_timed : frdb.
+Lemma Fr_visit_timed : forall n s0 r k, Fr s0 (fst r) -> Fr s0 (fst (visit_timed n r k)).
+Proof.
+  intros n s0 [s o] k H. cbn [fst] in H. name_result. unfold visit_timed. cases; leaf; eauto 30 with frdb.
+Qed.
+Lemma Fr_fold_visit_timed : forall n l s0 r, Fr s0 (fst r) -> Fr s0 (fst (fold_left (visit_timed n) l r)).
+Proof. intros n l s0. apply (fold_left_inv (fun r => Fr s0 (fst r))). intros; apply Fr_visit_timed; auto. Qed.
+#[export] Hint Resolve Fr_visit_timed Fr_fold_visit_timed : frdb.
+Lemma Fr_fire_timed : forall n s0 s, Fr s0 s -> Fr s0 (fst (fire_timed n s)).
+Proof. unfold fire_timed, ret; frR. Qed.
+Lemma Fr_connect_next : forall n s0 s, Fr s0 s -> Fr s0 (fst (fst (connect_next n s))).
+Proof. unfold connect_next; frR. Qed.
+#[export] Hint Resolve Fr_fire_timed Fr_connect_next : frdb.
+Lemma Fr_conn_established : forall n s0 s, Fr s0 s -> Fr s0 (fst (conn_established n s)).
+Proof. unfold conn_established; frR. Qed.
+#[export] Hint Resolve Fr_conn_established : frdb.
